@@ -22,7 +22,12 @@ func (c *Client) Append(mailbox string, size int64, options *imap.AppendOptions)
 		}).SP()
 	}
 	if options != nil && !options.Time.IsZero() {
-		cmd.enc.String(options.Time.Format(internal.DateTimeLayout)).SP()
+		t := options.Time
+		if _, offset := t.Zone(); offset%60 != 0 {
+			// The zone of a date-time has a resolution of one minute
+			t = t.UTC()
+		}
+		cmd.enc.String(t.Format(internal.DateTimeLayout)).SP()
 	}
 	// TODO: literal8 for BINARY
 	// TODO: UTF8 data ext for UTF8=ACCEPT, with literal8
